@@ -1,5 +1,6 @@
 import XcmModel.Props.C01
 import XcmModel.Lemmas.Ux
+import XcmModel.Props.C02
 /-!
 # C17 — traffic counters tell the truth  (framing layer: tcp, tls)
 
@@ -529,3 +530,123 @@ theorem C17_ux_counters_exact (steps : List Ux.Step) :
     exact ⟨by rw [h.aToM, h.bFromM, ha], by rw [h.aToB, h.bFromB, ha]⟩
 
 end XcmModel.C17
+
+/-! ## byte-stream transports: btcp -/
+namespace XcmModel.C17btcp
+open XcmModel XcmModel.Btcp
+
+/-- the byte counters are the lengths of the streams really handed to / obtained from the kernel -/
+def CntInv (s : St) : Prop :=
+  s.cnt.fromApp = s.tx.length ∧ s.cnt.toLower = s.tx.length ∧ s.cnt.fromLower = s.rxd.length ∧ s.cnt.toApp = s.rxd.length
+
+theorem send_cntInv {s : St} (h : CntInv s) (buf : Bytes) (est : List EstAns) (k : KSend) : CntInv (send s buf est k).1 := by
+  obtain ⟨h1, h2, h3, h4⟩ := h
+  simp only [send]
+  split <;> try exact ⟨h1, h2, h3, h4⟩
+  split
+  · rename_i kk
+    have hn : (if buf.length = 0 then 0 else max 1 (min kk buf.length)) ≤ buf.length := by split <;> omega
+    refine ⟨?_, ?_, h3, h4⟩ <;> simp only [List.length_append, List.length_take] <;> omega
+  · split
+    · exact ⟨h1, h2, h3, h4⟩
+    · split <;> exact ⟨h1, h2, h3, h4⟩
+
+theorem receive_cntInv {s : St} (h : CntInv s) (cap : Nat) (est : List EstAns) (k : KRecv) : CntInv (receive s cap est k).1 := by
+  obtain ⟨h1, h2, h3, h4⟩ := h
+  simp only [receive]
+  split <;> try exact ⟨h1, h2, h3, h4⟩
+  split
+  · split
+    · exact ⟨h1, h2, h3, h4⟩
+    · refine ⟨h1, h2, ?_, ?_⟩ <;> simp only [List.length_append] <;> omega
+  · exact ⟨h1, h2, h3, h4⟩
+  · split <;> exact ⟨h1, h2, h3, h4⟩
+
+theorem finish_cntInv {s : St} (h : CntInv s) (est : List EstAns) : CntInv (finish s est).1 := by
+  obtain ⟨h1, h2, h3, h4⟩ := h
+  simp only [finish]
+  split <;> exact ⟨h1, h2, h3, h4⟩
+
+/-- **exactness, every history**: from_app = to_lower = bytes handed to the kernel = the accepted bytes (C02's invariant),
+from_lower = to_app = bytes obtained from the kernel = the bytes returned; a short write counts what was written, not
+what was asked -/
+theorem C17_btcp_counters_exact (st : CState) (ops : List C02.Op) :
+    let c := (C02.Conn.init st).run ops
+    c.s.cnt.fromApp = c.accepted.length ∧ c.s.cnt.toLower = c.accepted.length ∧
+    c.s.cnt.fromLower = c.returned.length ∧ c.s.cnt.toApp = c.returned.length := by
+  intro c
+  have hw : C02.Inv c := C02.inv_run ops ⟨rfl, rfl⟩
+  have hc : CntInv c.s := by
+    show CntInv ((C02.Conn.init st).run ops).s
+    unfold C02.Conn.run
+    generalize hc0 : C02.Conn.init st = c0
+    have h0 : CntInv c0.s := by rw [← hc0]; exact ⟨rfl, rfl, rfl, rfl⟩
+    clear hc0 hw
+    induction ops generalizing c0 with
+    | nil => exact h0
+    | cons o os ih =>
+      apply ih
+      cases o with
+      | send buf est k =>
+        have := send_cntInv h0 buf est k
+        simp only [C02.Conn.step]
+        cases hr : (send c0.s buf est k).2 <;> simpa [hr] using this
+      | receive cap est k =>
+        have := receive_cntInv h0 cap est k
+        simp only [C02.Conn.step]
+        cases hr : (receive c0.s cap est k).2 <;> simpa [hr] using this
+      | finish est =>
+        have := finish_cntInv h0 est
+        simpa [C02.Conn.step] using this
+  obtain ⟨h1, h2, h3, h4⟩ := hc
+  rw [← hw.tx, ← hw.rx]
+  exact ⟨h1, h2, h3, h4⟩
+
+/-- a refused or failing send counts nothing -/
+theorem C17_btcp_refused_counts_nothing (s : St) (buf : Bytes) (est : List EstAns) (k : KSend) (e : Nat)
+    (h : (send s buf est k).2 = .err e) : (send s buf est k).1.cnt = s.cnt := by
+  revert h
+  simp only [send]
+  split <;> try (intro _; rfl)
+  split
+  · intro h; cases h
+  · split
+    · intro _; rfl
+    · split <;> (intro _; rfl)
+
+end XcmModel.C17btcp
+
+/-! ## byte-stream transports: btls (with its retained-output buffer) -/
+namespace XcmModel.C17btls
+open XcmModel XcmModel.Btls
+
+/-- **exactness, every history**: from_app counts every byte xcm_send reported as accepted - the retained ones included, at
+the moment they are accepted -, to_lower the bytes SSL_write took, to_app = from_lower the bytes returned; hence
+from_app >= to_lower, the difference being exactly what is still retained -/
+theorem C17_btls_counters_exact (auth : Bool) (ops : List Op) :
+    let s := run { auth := auth } ops
+    s.cnt.fromApp = s.accepted.length ∧ s.cnt.toLower = s.written.length ∧
+    s.cnt.toApp = s.delivered.length ∧ s.cnt.fromLower = s.delivered.length ∧
+    s.cnt.fromApp = s.cnt.toLower + s.pend.length := by
+  intro s
+  have h := run_inv ops (init_inv auth)
+  refine ⟨h.cntW.1, h.cntW.2, h.cntD.1, h.cntD.2, ?_⟩
+  rw [h.cntW.1, h.cntW.2, h.acc, List.length_append]
+
+/-- no step decreases a counter: the accepted, written and delivered streams only grow -/
+theorem C17_btls_monotone {s : St} (hi : Inv s) (op : Op) :
+    s.cnt.fromApp ≤ (step s op).cnt.fromApp ∧ s.cnt.toLower ≤ (step s op).cnt.toLower ∧
+    s.cnt.toApp ≤ (step s op).cnt.toApp ∧ s.cnt.fromLower ≤ (step s op).cnt.fromLower := by
+  have hi' := step_inv hi op
+  have g := step_grows s op
+  rw [hi.cntW.1, hi.cntW.2, hi.cntD.1, hi.cntD.2, hi'.cntW.1, hi'.cntW.2, hi'.cntD.1, hi'.cntD.2]
+  exact ⟨g.1, g.2.1, g.2.2, g.2.2⟩
+
+/-- a send that fails - EAGAIN included - adds nothing to from_app -/
+theorem C17_btls_refused_counts_nothing {s : St} (hi : Inv s) (buf : Bytes) (h : HAns) (ws : List WAns) (e : Nat)
+    (hl : 0 < buf.length) (hr : (send s buf h ws).2.1 = .err e) : (send s buf h ws).1.cnt.fromApp = s.cnt.fromApp := by
+  have hi' := send_inv hi buf h ws
+  rw [hi'.cntW.1, hi.cntW.1, (C02btls.C02_btls_send_accepts_prefix s buf h ws hl).2 e hr]
+
+end XcmModel.C17btls
+
